@@ -172,6 +172,36 @@ func Solve(o *Obligation, workDir string, timeoutS int, confirm bool) *SolveResu
 			}
 		}
 	}
+	// 1b. weakened query: assumptions with an existential quantifier dropped (again: unsat there is unsat of the
+	// full query). Existential invariants make instantiation explode for goals that do not need them.
+	if eq := dropExists(q); eq != q {
+		ename := filepath.Join(workDir, sanitizeFile(o.Name)+".noexists.smt2")
+		if os.WriteFile(ename, []byte(eq), 0o644) == nil {
+			lim := timeoutS / 2
+			if lim < 3 {
+				lim = 3
+			}
+			w3, t3 := race(ename, lim)
+			for _, t := range t3 {
+				res.Tried = append(res.Tried, "noexists/"+t)
+			}
+			if !keepQueries {
+				os.Remove(ename)
+			}
+			if w3.status == "unsat" {
+				res.Status = "unsat"
+				res.Solver = w3.solver + "(no-existential-assumptions)"
+				res.Seconds = time.Since(t0).Seconds()
+				if !keepQueries {
+					os.Remove(fname)
+					if redSat != nil {
+						os.Remove(filepath.Join(workDir, sanitizeFile(o.Name)+".reduced.smt2"))
+					}
+				}
+				return res
+			}
+		}
+	}
 	// 2. full query
 	win, tried := race(fname, timeoutS)
 	res.Tried = append(res.Tried, tried...)
@@ -244,6 +274,29 @@ func Solve(o *Obligation, workDir string, timeoutS int, confirm bool) *SolveResu
 		os.Remove(fname)
 	}
 	return res
+}
+
+func dropExists(q string) string {
+	var b strings.Builder
+	lines := strings.Split(q, "\n")
+	// the goal is the last assert before (check-sat): never dropped
+	goal := -1
+	for i, l := range lines {
+		if strings.HasPrefix(l, "(check-sat)") {
+			break
+		}
+		if strings.HasPrefix(l, "(assert") {
+			goal = i
+		}
+	}
+	for i, l := range lines {
+		if i != goal && strings.HasPrefix(l, "(assert") && strings.Contains(l, "(exists ") {
+			continue
+		}
+		b.WriteString(l)
+		b.WriteString("\n")
+	}
+	return strings.TrimSuffix(b.String(), "\n")
 }
 
 func dropQuantified(q string) string {
